@@ -113,8 +113,9 @@ def validate_total(mod, pid: str, records: list[dict], trace_path: pathlib.Path,
         return merged
 
 
-def check(mod, tier: str, seed: int, *, replay: str | None = None) -> int:
+def check(mod, tier: str, seed: int, *, replay: str | None = None, report_as: str | None = None) -> int:
     pid = mod.ID
+    rid = report_as or pid          # the property id violations are reported under
     t0 = time.time()
     work = tlc.WORK / pid / f"{tier}-{os.getpid()}"
     if work.exists():
@@ -126,8 +127,9 @@ def check(mod, tier: str, seed: int, *, replay: str | None = None) -> int:
         mc_results = []
         if replay is None:
             mc_pool = concurrent.futures.ThreadPoolExecutor(max_workers=4)
-            mc_futs = [mc_pool.submit(tlc.model_check, m, c, workers=wk, tag=f"{pid}-{m}-{c}")
-                       for (m, c, wk) in mod.MC[tier]]
+            mc_futs = [mc_pool.submit(tlc.model_check, e[0], e[1], workers=e[2], tag=f"{pid}-{e[0]}-{e[1]}-{k}",
+                                      env=(e[3] if len(e) > 3 else None))
+                       for k, e in enumerate(mod.MC[tier])]
         # ---------------------------------------------------------------- executions (G) + (T)
         if replay is None:
             cases = mod.cases(tier, seed)
@@ -190,13 +192,13 @@ def check(mod, tier: str, seed: int, *, replay: str | None = None) -> int:
                 path = pathlib.Path(replay)
             if printed < 25:
                 clauses = sorted({c for _, c in fl})
-                print(f"VIOLATION property={pid} replay={path}  clauses={','.join(clauses)}")
+                print(f"VIOLATION property={rid} replay={path}  clauses={','.join(clauses)}")
                 printed += 1
         if len(violations) > printed:
             print(f"... {len(violations) - printed} more violating traces (first 25 replays written)")
         for kf in known:
             if kf["id"] in known_hit:
-                print(f"KNOWN-FINDING: property={pid} {kf['id']} {kf['what']} ({known_hit[kf['id']]} traces)")
+                print(f"KNOWN-FINDING: property={rid} {kf['id']} {kf['what']} ({known_hit[kf['id']]} traces)")
         for r in bad_mc:
             print(f"MACHINERY-ERROR property={pid} model checking {r['module']}/{r['cfg']} failed: "
                   f"{r.get('violated', 'see output')}\n{r.get('output_tail', '')[-1500:]}", file=sys.stderr)
@@ -253,8 +255,28 @@ def check(mod, tier: str, seed: int, *, replay: str | None = None) -> int:
         extra = getattr(mod, "extra_evidence", None)
         if extra:
             ev["coverage"].update(extra(tier, cases, records, verdict))
+        # further specifications this property is also decided against (e.g. whole sessions of EmsSystem)
+        also_rc = 0
+        for name in getattr(mod, "ALSO", {}).get(tier, []):
+            sub = importlib.import_module(name)
+            rc = check(sub, tier, seed, report_as=rid)
+            also_rc = max(also_rc, rc)
+            try:
+                sub_ev = json.loads((EVIDENCE / f"{sub.ID}.json").read_text())
+                ev["coverage"].setdefault("also", []).append({"module": name, "states": sub_ev["coverage"]["states"],
+                                                               "traces_validated_against_impl": sub_ev["coverage"]["traces_validated_against_impl"],
+                                                               "events": sub_ev["coverage"]["evaluations"], "violations": sub_ev.get("violations", 0)})
+                ev["coverage"]["states"] += sub_ev["coverage"]["states"]
+                ev["coverage"]["transitions"] += sub_ev["coverage"]["transitions"]
+                ev["coverage"]["traces_validated_against_impl"] += sub_ev["coverage"]["traces_validated_against_impl"]
+                ev["violations"] += sub_ev.get("violations", 0)
+            except Exception:
+                pass
+        ev["wall_s"] = round(time.time() - t0, 2)
         EVIDENCE.mkdir(exist_ok=True)
         (EVIDENCE / f"{pid}.json").write_text(json.dumps(ev, indent=1))
+        if also_rc:
+            return also_rc if not violations else 1
         if bad_mc:
             return 2
         if missing and not violations:
